@@ -123,6 +123,10 @@ func SweepFills() []string {
 		fills = append(fills, string([]byte{byte(b)}))
 	}
 	fills = append(fills, "%s", "%d", "%%", "%!", "%v%", "é", "\u212a", "\ufffd", "\u00a0", "\u2028", "\u3000", "\xe2\x82", "\r\n", "\n\n", "//", "/*", "*/")
+	// words the typed layer gives a meaning to, and near misses of them (whole, cut short, run together)
+	fills = append(fills, " indirect", " indirect;", " indirect; ", " indirect;x", "indirect;", " indirect ;", " indirect;;", " Indirect;", "\tindirect;\t",
+		" Deprecated:", " Deprecated: ", "Deprecated:x", " deprecated: x", "+incompatible", " v1.0.0", " =>", " => ", "=>", " [", "]", ", ",
+		" module", " go", " require", " toolchain", " godebug", " tool", " use", " retract", " exclude", " replace", " ignore", "=", " k=v", " a=b=c")
 	fills = append(fills, enum.LongFills('a')...)
 	fills = append(fills, strings.Repeat("(", 300), strings.Repeat("a (\n", 200), strings.Repeat("x ", 40000))
 	return fills
